@@ -927,6 +927,50 @@ static void TouchCase(vh::Ctx& c) {
     }
     return;
   }
+  // Cases 6,7: regression sub-family for the "union with a box inside an earlier union" defect
+  // (volume 7 instead of 8): X + (A+B) and (A+B) + X for two fixed (A,B) and every box X that is
+  // not apart from both. Case 8: A + ((A^B)^B) for every box B that touches the fixed A on a face.
+  if (c.idx == 6 || c.idx == 7) {
+    static const LBox fa[2] = {{{0, 0, 2}, {2, 3, 3}}, {{0, 0, 1}, {1, 3, 2}}};
+    static const LBox fb[2] = {{{0, 1, 2}, {3, 3, 3}}, {{0, 1, 1}, {2, 3, 2}}};
+    const LBox &A = fa[c.idx - 6], &B = fb[c.idx - 6];
+    for (auto& X : boxes) {
+      if (PairRel(X, A) == "apart" && PairRel(X, B) == "apart") continue;
+      for (int order = 0; order < 2; order++) {
+        EP u = Bin(0, Leaf(A), Leaf(B));
+        EP e = order ? Bin(0, u, Leaf(X)) : Bin(0, Leaf(X), u);
+        Value out;
+        EP failing;
+        Verdict fv;
+        long budget = 100;
+        c.site("lattice-touch:Add");
+        c.count("lattice_touch_programs");
+        c.count("lattice_touch_regression_programs");
+        if (!Eval(c, e, N, out, &failing, &fv, budget)) Report(c, "union-regression", failing, N, fv, Str(e));
+        else if (out.v.nTri > 0) c.sig(std::string("UR") + (order ? "L" : "R") + PairRel(X, A) + PairRel(X, B));
+      }
+      c.heartbeat();
+    }
+    return;
+  }
+  if (c.idx == 8) {
+    const LBox A = {{1, 2, 0}, {2, 3, 1}};
+    for (auto& B : boxes) {
+      if (PairRel(A, B) != "touch-face") continue;
+      EP e = Bin(0, Leaf(A), Bin(2, Bin(2, Leaf(A), Leaf(B)), Leaf(B)));
+      Value out;
+      EP failing;
+      Verdict fv;
+      long budget = 100;
+      c.site("lattice-touch:Add");
+      c.count("lattice_touch_programs");
+      c.count("lattice_touch_regression_programs");
+      if (!Eval(c, e, N, out, &failing, &fv, budget)) Report(c, "sheet-regression", failing, N, fv, Str(e));
+      else if (out.v.nTri > 0) c.sig(std::string("SR") + PairRel(A, B, true));
+      c.heartbeat();
+    }
+    return;
+  }
   for (int n = 0; n < per; n++) {
     auto pq = touching[c.rng.below(touching.size())];
     const LBox &P = boxes[pq.first], &Q = boxes[pq.second];
@@ -998,6 +1042,13 @@ static Polygons Star(vh::Rng& r, int n, double rad, bool hole) {
 static int g_detail = 1;  // stage parameter `detail`: multiplies segment / point counts
 // eps-valid by construction, canonical pose, size O(1)
 static Manifold Primitive(vh::Rng& r, std::string& how, std::string& kind) {
+  if (g_detail >= 6 && r.chance(0.4)) {  // PAR stage: >= 1e4 triangles, crosses the autoPolicy thresholds
+    double rad = r.uni(0.6, 1.3);
+    int seg = 4 * r.range(36, 48);
+    kind = "BigSphere";
+    how = "Sphere(" + f17(rad) + "," + std::to_string(seg) + ")";
+    return Manifold::Sphere(rad, seg);
+  }
   int k = r.range(0, 9);
   switch (k) {
     case 0: case 1: {
